@@ -5,7 +5,7 @@ CHECKS['C15'] = dict(
     text='The alphabet is frozen once by tools/harvest_c15.py: every API command of qa/encoding/*.ci and every example configuration holding a route (text), '
          'every NLRI and path attribute inside the recorded messages of qa/decoding and qa/encoding (split with vt/ref/wire.py and per-family RFC framing), '
          'and hand-built boundary members (reference encoder for the 8 IP families: masks 0/1/7/8/9/.../max, 1-3 labels, RD types 0/1/2; RFC layouts '
-         'transcribed for EVPN 1-5, VPLS, RTC, MVPN, MUP, SR-policy, BGP-LS 1-6 and its VPN form, FlowSpec, and for every extended-community sub-type, '
+         'transcribed for EVPN 1-5, VPLS, RTC, MVPN, MUP (incl. prefix lengths that are not a multiple of 8, in pairs differing only in the last partial octet), SR-policy, BGP-LS 1-6 and its VPN form, FlowSpec, and for every extended-community sub-type, '
          'PMSI tunnel type, AIGP, prefix-SID, tunnel-encap sub-TLV, BGP-LS attribute TLV). Every registered (AFI, SAFI) (23) and attribute code (22) has '
          'an alphabet; those with fewer than 6 members are named in the evidence. On every member x path identifier {none, 0, 1 (thorough: 2, 2^32-1)} for '
          'the 8 families that carry one x ASN4 on/off for attributes: (1) bytes -> NLRI.unpack_nlri / AttributeCollection.unpack -> pack == the bytes, '
